@@ -21,6 +21,11 @@ CHECKS = {
    text="TLC checks on XmssKey.tla, for every history over {Sign, SetIndex(j)} with j ranging over the whole legal range, its borders and 2^31-1 (h=4,6 exhaustive), that the key refines the counter automaton of the property (PROPERTY CounterSpec), refusals preserve state, exhaustion is final and emitted indices strictly increase. Real keys are driven through exhaustive walks, all jumps and seeded random call sequences around the guard borders (0, idx-1, idx, 2^h-1, 2^h, 2^31, 2^32-1) to exhaustion and beyond; each logged call (result class, index, embedded signature index, byte-exact before/after snapshot comparison, digest of all getters) is validated by TLC against the automaton.",
    note="Histories on the real code are exhaustive only for single calls from every index at h=4,6 and otherwise seeded samples; keys with h>10 are never built.",
    technique="explicit TLA+ spec + TLC (refinement of a counter automaton, action properties); trace validation of the real code's call histories"),
+ "C08": dict(
+   level="model_checking", design_ref="6 (C08), 3.4",
+   text="TLC checks on Wallet.tla (two objects of one seed; Sign, SetIndex in one or several jumps, Crash, Rebuild from seed / extended seed / mnemonic through the concrete descriptor codec) that the state of any live object equals the canonical state after idx signatures of a fresh key, for every interleaving (h=4 all jumps, h=6 jump classes); SignAdvance and JumpAdvance are separate transcriptions of the two copies of the traversal step, so their agreement is a checked fact. On the real code, for every crash index the object is rebuilt three ways (seed + one jump, extended seed + two jumps, mnemonic + signatures + jump) and must reproduce the original's signatures byte for byte (digest) and its live state; TLC-generated wallet behaviours (TLC -simulate on SimWallet.tla) are executed on real objects; every event is validated by TraceXmssKey.tla, which keeps per-seed tables index -> live state and (index, message) -> signature digest.",
+   note="Signature equality after a crash is compared for a window of indices in the quick tier (whole remaining life at h=6/8 seam); heights above 10 are not rebuilt.",
+   technique="explicit TLA+ spec + TLC exhaustive model checking; trace validation with per-seed ghost tables; TLC-generated behaviours replayed into the real code"),
 }
 
 NOT_YET = {
